@@ -28,6 +28,12 @@ theorem generator_shape :
     C15Facts.addWitnessForceSteps = expectedAddWitnessForceSteps ∧
     C15Facts.genGroupSignSteps = expectedGenGroupSignSteps := by decide
 
+/-- The handlers on the path keep no process-wide state of their own package (the model treats every
+call as a function of the round state and the message) and read no fork configuration (the model has
+no proposal flags). -/
+theorem path_is_stateless_and_fork_independent :
+    C15Facts.pathGlobals = expectedPathGlobals ∧ C15Facts.pathForkReads = [] := by decide
+
 /-- `SignInfo.VerifySign` = signer id non-zero ∧ `VerifySig(pk, dataHash, signature)`. -/
 theorem verifySign_shape : C15Facts.verifySignSteps = expectedVerifySignSteps := by decide
 
